@@ -18,7 +18,7 @@ from hypothesis import strategies as st
 from vf.build import Builder
 from vf.common import Discard, Violation
 from vf.forms import ITYPE_NAME, LinGen, applies_to, build_form, draw_md, draw_sid, restrict_term
-from vf.gen import Gen, Profile, TDIM, ops_in, worlds
+from vf.gen import GEO_SCALAR_CELL, GEO_SCALAR_FACET, Gen, Profile, TDIM, ops_in, worlds
 from vf.interp import Interp, close, derivative_depth
 from vf.props.valuecommon import warmup  # noqa: F401
 from vf.props.valuecommon import Guard, check_acyclic, eval_output, exc_bucket, make_env, make_two_sided, rel_err
@@ -90,6 +90,11 @@ def cases(draw, tier):
         e = terms[0]
         for t in terms[1:]:
             e = ["add", e, t]
+        if not cplx and draw(st.integers(0, 2)) == 0:
+            # a geometric factor: every scalar cell/facet quantity meets every cell type often enough
+            names = list(GEO_SCALAR_CELL) + (list(GEO_SCALAR_FACET) if it != "dx" else [])
+            q = ["geo", draw(st.sampled_from(names))]
+            e = ["mul", ["restr", q, draw(st.sampled_from(["+", "-"]))] if it == "dS" else q, e]
         integrals.append({"itype": it, "sid": draw_sid(draw), "md": draw_md(draw), "expr": e})
     geo = draw(st.booleans())
     opts = {
